@@ -117,6 +117,12 @@ USER = [
     ['unit', 'NG', 'g2', ['scaled', 'i:2', 'g0']],
     ['unit', 'NG', 'g2b', ['term', [['D:0.5', 1], ['g0', 1], ['i:4', 1]]]],
     ['unit', 'NG', 'g1b', ['scaled', 'i:1', 'g0']],          # equal scales
+    # scales that are no finite decimals
+    ['unit', 'NG', 'gthird', ['scaled', 'F:1/3', 'g0']],
+    ['unit', 'NG', 'g22_7', ['scaled', 'F:22/7', 'g0']],
+    # factors of an integer type that is not derived from int
+    ['unit', 'NG', 'gI3', ['term', [['I:3', 1], ['g0', 1]]]],
+    ['unit', 'NG', 'gI7', ['term', [['I:7', 1], ['g0', 1]]]],
 ]
 
 
